@@ -1199,6 +1199,8 @@ fn excluded_string(c: &mut Ctx) -> String {
     for e in &c.excludes {
         if e.starts_with("@ext") {
             pool.extend(["@ext/thing", "@ext/deep/er/thing", "@ext/thing.lua"]);
+        } else if e.starts_with("./gen_") {
+            pool.extend(["./gen_data", "./gen_x.lua", "./gen_data", "./gen_version"]);
         } else {
             pool.extend(["./vendor_x", "../lib/vendor_tools", "./lib/vendor_y.lua", "vendor_z"]);
         }
@@ -1613,11 +1615,13 @@ pub fn gen_graph(t: &mut Tape, avoid: Avoid) -> Graph {
     let luau = t.bool(128);
     let generator = gen_generator(t);
     let default_rules = t.bool(110);
-    let excludes: Vec<String> = match t.weighted(&[3, 3, 1, 1]) {
+    let excludes: Vec<String> = match t.weighted(&[3, 3, 1, 1, 2]) {
         0 => vec![],
         1 => vec!["@ext/**".to_string(), "**/vendor_*".to_string()],
         2 => vec!["@ext/**".to_string()],
-        _ => vec!["**/vendor_*".to_string()],
+        3 => vec!["**/vendor_*".to_string()],
+        // a pattern is matched against the require path as written, leading `./` included
+        _ => vec!["./gen_*".to_string(), "**/vendor_*".to_string()],
     };
     let entry = if t.bool(60) {
         "src/app/main.lua".to_string()
